@@ -53,6 +53,23 @@ func c08Families(tier fw.Tier) []docFamily {
 			}
 			return t, nil, false
 		}})
+		// TRAIL: 1-3 records, 1-3 blank lines between them, 0-8 blank lines after the last one, LF / CRLF; read with EVERY
+		// worker count (blank lines at the end of a chunk, chunks that are blank altogether)
+		fs = append(fs, docFamily{"TRAIL", 3 * 2 * 3 * 9 * 2, func(i int) (string, []sm.Record, bool) {
+			d := docgen.Radix(i, 3, 2, 3, 9, 2)
+			eol := []string{"\n", "\r\n"}[d[4]]
+			text := ""
+			for r := 0; r <= d[0]; r++ {
+				if r > 0 {
+					text += strings.Repeat(eol, d[2]+1)
+				}
+				text += fmt.Sprintf("2020-01-%02d", r+1) + eol
+				if d[1] == 1 {
+					text += "    1h" + eol
+				}
+			}
+			return text + strings.Repeat(eol, d[3]), nil, false
+		}})
 		return fs
 	})
 }
@@ -101,7 +118,13 @@ func c08Text(c *fw.Ctx, fam string, idx int, text string) {
 	cs := func() famCase { return famCase{fam, idx, fw.Txt(text)} }
 	mark, _ := json.Marshal(cs())
 	c.Mark(mark)
-	for _, n := range []int{0, 2, 3} {
+	ns := []int{0, 2, 3}
+	if fam == "TRAIL" {
+		for n := 4; n <= len(text)+2; n++ {
+			ns = append(ns, n)
+		}
+	}
+	for _, n := range ns {
 		var rs []klog.Record
 		var bs []txt.Block
 		var errs []txt.Error
